@@ -24,7 +24,7 @@ def main():
     wt = os.path.join(scratch, 'wt')
     os.makedirs(scratch, exist_ok=True)
     sh('git -C /repo worktree add --detach %s HEAD' % wt)
-    env = dict(os.environ, GLV_REPO=wt)
+    env = dict(os.environ, GLV_REPO=wt, GLV_EVIDENCE=os.path.join(scratch, 'ev'))
     bad = 0
     try:
         for fn in sorted(os.listdir(d)):
@@ -53,9 +53,9 @@ def main():
     finally:
         sh('git -C /repo worktree remove --force %s' % wt)
         shutil.rmtree(scratch, ignore_errors=True)
-        # evidence files were rewritten against the scratch tree: restore them for /repo
-        for p in props:
-            sh('bin/glcheck %s --tier quick' % p, cwd=VERIF)
+        import hashlib, glob
+        for d in glob.glob(os.path.join(VERIF, 'build', 'cfg-p*-' + hashlib.sha256(wt.encode()).hexdigest()[:8] + '*')):
+            shutil.rmtree(d, ignore_errors=True) if os.path.isdir(d) else os.remove(d)
     print('%d problem(s)' % bad)
     return 1 if bad else 0
 
